@@ -117,7 +117,11 @@ Definition prev_of (c0 : cluster) : list id := match inv c0 with Some l => l | N
 Definition plan_of (sc : scenario) (c0 : cluster) : plan :=
   let locals := if o_destroy (sc_opts sc) then [] else sc_local sc in
   let cand := sortn (diffn (prev_of c0) (map l_id locals)) in
-  build_plan sc locals (flat_map (fun i => match find_obj (objs c0) i with Some c => [c] | None => [] end) cand).
+  let known := live_crds sc c0 in
+  build_plan sc known locals
+             (flat_map (fun i => if kind_known sc known i
+                                 then match find_obj (objs c0) i with Some c => [c] | None => [] end
+                                 else []) cand).
 
 (* ---- C01: no orphans ------------------------------------------------------ *)
 (* ids owned by this inventory but not tracked before the run: not applied by a
